@@ -51,6 +51,16 @@ def gen_cases(ctx):
     out.append({"k": "impl", "sc": {"N": 8, "p": 1, "numrec": 2, "dt": 600, "adv": "RK2", "lifetime": None,
                                      "rows": [[0, 3.0, 3.0, 20.0], [1200, 4.0, 3.5, 70.0]], "continuous": None, "u": 0.3,
                                      "reference": 0, "offgrid": True}, "seed": 8})
+    # fixed: the only particle dies at age 1800 s, so the second file holds the records of steps 2 (one particle) and 3
+    # (NO particle); a restart from that EMPTY last record must go on with the releases of steps 5 and 6
+    out.append({"k": "impl", "sc": {"N": 8, "p": 1, "numrec": 2, "dt": 600, "adv": "EF", "lifetime": 1800,
+                                     "rows": [[0, 3.0, 3.0, 20.0], [3000, 4.0, 3.5, 70.0], [3600, 5.0, 3.25, 20.0]], "continuous": None,
+                                     "u": 0.3, "reference": None, "offgrid": False}, "seed": 9})
+    # fixed: continuous release every step and a half (ticks midway between two model steps), restarts at steps 2 (even)
+    # and 5 (odd): a tick belongs to the same step of the uninterrupted and of the restarted run
+    out.append({"k": "impl", "sc": {"N": 9, "p": 1, "numrec": 3, "dt": 600, "adv": "RK2", "lifetime": 3000,
+                                     "rows": [[0, 3.0, 3.0, 20.0]], "continuous": 900, "u": 0.3, "reference": 0, "offgrid": False},
+                "seed": 10})
     # whole set-ups (Model/Setup.v, SetupWarm.v): irregular frames in several files, forward and reversed clocks,
     # multiplicities; the split run and a restart from every file boundary against the model's restarted run
     for q in range(6 if ctx.quick else 60):
